@@ -133,7 +133,11 @@ pub struct Cx<'a> {
 
 impl<'a> Cx<'a> {
     fn viol(&self, op: &str, clause: &str, msg: impl FnOnce() -> String) {
-        let grouped = (op.starts_with("qr.") || op.starts_with("svd.")) && in_abs_eps_regime(self.cls) && ACCURACY_CLAUSES.contains(&clause);
+        // Grouping of all accuracy clauses under one key per input regime was how the symptoms of the
+        // absolute-epsilon defect (repaired in /repo, commit 6c64a71) were bundled; with that defect gone
+        // every clause keeps its own key (set GROUP_ABS_EPS_REGIME to true to get the bundling back).
+        const GROUP_ABS_EPS_REGIME: bool = false;
+        let grouped = GROUP_ABS_EPS_REGIME && (op.starts_with("qr.") || op.starts_with("svd.")) && in_abs_eps_regime(self.cls) && ACCURACY_CLAUSES.contains(&clause);
         if grouped {
             self.viol_cls(op, "inaccurate", self.cls, || format!("[{}] {}", clause, msg()))
         } else {
@@ -159,7 +163,7 @@ impl<'a> Cx<'a> {
     /// the site key (the explorer keeps one message per site and job; later ones are only counted)
     /// and whenever the case is being sampled / replayed.
     fn viol_cls(&self, op: &str, clause: &str, cls: &str, msg: impl FnOnce() -> String) {
-        let site = format!("{}:{}:{}", op, clause, cls);
+        let site = format!("{}:{}:{}{}", op, clause, cls, if self.width == 32 { ":f32" } else { "" });
         let first = SEEN.with(|s| s.borrow_mut().insert(site.clone()));
         if first || mc::sampling() {
             mc::violation(site, format!("{} | {}", self.head(), msg()));
